@@ -336,6 +336,15 @@ func genC06(t *core.Tape, tier string) *Scenario {
 	if info.lookupKey != "" {
 		sc.Clients[0].ReadMax = 0 // the metadata block itself must not trip the read limit
 	}
+	if can.Status > 299 && !(c.Proto == PConnect && p.Kind == KUnary) && t.Bool(1, 3, "drain.before.end") {
+		// The server answers early and ends the response only once it has read the
+		// request to its end; over HTTP/2 the transport stops uploading at the
+		// sight of the status, so that end comes only if the client lets go of
+		// the response. (Not for unary Connect calls, which need the whole body of
+		// a non-200 answer to find the error in it.)
+		can.DrainBeforeEnd = true
+		sc.Notes["byz_drain_before_end"]++
+	}
 	sc.Notes["byz_"+info.class]++
 	p.Canned = can
 	p.byz = info
